@@ -1,11 +1,11 @@
 (* The dispatch tables of the hand-written models ARE the tables of today's source text.
-   coq/gen/Consts_gen.v is written on every run by driver/srcconsts.py, which reads them out of /repo's .go files
-   (the case lists of eatWhitespace / parsePossibility / parseMultiarch / parsePossibilityControllers, the column
-   slices and magic bytes of parseArEntry, the changelog date layout, the .deb format version).  Each lemma below
-   states that a model constant equals what was read; an edit of one of those tables in the source breaks this
-   file - a proof obligation - before a single case has been run. *)
+   coq/gen/Consts_gen.v is written on every run by driver/srcconsts.py, which reads them out of /repo's .go files.  Each
+   lemma states that a model constant equals what was read; an edit of one of those tables in the source breaks the lemma -
+   a proof obligation - before a single case has been run.  One file per model (SRC_D3, SRC_AR, SRC_DATE, SRC_D16, SRC_U20):
+   a broken lemma is held against the properties whose theorems rest on that model (driver/lib.py: the Require closure of the
+   property file), not against the others. *)
 From Coq Require Import List Ascii String Bool Arith NArith Lia.
-Require Import GS D3 D4 AR D16 DATE Consts_gen.
+Require Import GS D3 D4 Consts_gen.
 Import ListNotations.
 
 Definition mem_code (tab : list N) (c : ascii) : bool := existsb (N.eqb (N_of_ascii c)) tab.
@@ -57,19 +57,3 @@ Proof.
   - exact (D4.by_enum (fun c => Bool.eqb (mem_code (nth 3 Consts_gen.substvar_cases []) c) (D4.stop3 c)) eq_refl c).
 Qed.
 
-(* deb/ar.go: (from, to) of every column of the 60-byte member header - the (offset, width) pairs of AR.parse_entry and of
-   the renderer AR2.header - and the two magic bytes at 58 and 59 *)
-Lemma src_ar_header :
-  map (fun p => (fst p, snd p - fst p)%N) Consts_gen.ar_columns = [(0, 16); (16, 12); (28, 6); (34, 6); (40, 8); (48, 10)]%N /\
-  Consts_gen.ar_magic = [(58%N, N_of_ascii AR.bq); (59%N, N_of_ascii nl)] /\
-  Consts_gen.ar_header_len = [60%N].
-Proof. repeat split. Qed.
-
-(* changelog/changelog.go: the layout DATE.parse_when is a model of *)
-Definition modelled_layout : string := "Mon, 2 Jan 2006 15:04:05 -0700".
-Lemma src_when_layout : Consts_gen.when_layout = modelled_layout.
-Proof. reflexivity. Qed.
-
-(* deb/deb.go: the one format version loadDeb hands to loadDeb2 *)
-Lemma src_deb_version : Consts_gen.deb_versions = [map N_of_ascii (s "2.0" ++ [nl])].
-Proof. reflexivity. Qed.
